@@ -28,6 +28,7 @@ def run(ctx, model_ok):
                         "following the operation (the two commute: they write to different parts of the state)",
                         "values are integer-valued (positions in Z^3, octahedral rotations, integer excitations/dimensions); validity of values (positive dimensions, ...) is C17's subject, the model "
                         "does not validate; `_style_kwargs` and the children lists are represented by value (record field / forest), not as heap cells",
+                        "a copy that raises part-way: both sides keep the objects made by deepcopy(self) as (possibly unreferenced) objects; the real ones are obtained by wrapping copy.deepcopy during the call",
                         "labels outside the generated alphabet (Unicode decimal digits, a trailing newline, which Python's `\\d+$` treats specially) are not modelled"]
     fails, ost = oracle.sweep(ctx, ctx.scale(64, 3000) * budget)
     ctx.failing += fails
@@ -36,7 +37,9 @@ def run(ctx, model_ok):
     ctx.cov["distinct_nontrivial"] = ost["c18_copies"]
     ctx.cov["rule_forestattr"] = ("forestattr stream: objects of 6 classes constructed from integer specs (paths of length 1-3, style keyword arguments pending for half of them); per history 16-22 operations: "
                                   "tree operations, move/rotate (scalar and vector input, start, anchors) and position= on leaves and populated collections, attribute / scalar / style writes, copy(**kwargs) "
-                                  "with position / array / scalar / style_label / style property overrides in random keyword order, of leaves and (nested, owned) collections with realised, pending or absent styles; "
+                                  "with position / orientation (None, single rotation, path) / array / scalar / style_label / style property / parent= (None, a collection, a non-collection) / children= (the original's own children, any objects, "
+                                  "refused lists) overrides and values the setter rejects (copy raises part-way: the objects made by the deep copy are taken hold of through a deepcopy hook and stay in the comparison, so that "
+                                  "'is a half-built copy still referenced' is read off the dump) in random keyword order, orientation= as a direct assignment on leaves and populated collections, of leaves and (nested, owned) collections with realised, pending or absent styles; "
                                   "later operations on both sides; after every operation all values, tree links, *_all views and container identities of all objects are compared; op distribution in correspondence.forestattr")
     ctx.cov["rule"] = ("forest stream: seeded histories over 3-8 objects mixing add/remove/parent=/children=/typed setters/`+` with copy() of leaves, flat and nested, owned and free collections, "
                        "later operations addressing the clones (incl. copies of copies), every dump compared with Forest.stepC; label stream: add_iteration_suffix and obj.copy().style.label on generated names "
@@ -48,9 +51,17 @@ def run(ctx, model_ok):
     ctx.cov["not_shown"] = ["same field (C06 gives: the field is a function of the attribute values that copy_attrs_equal shows equal); whether CPython objects outside the seven modelled "
                             "containers share state (class-level mutables, _magnetization, mesh caches, nested style sub-objects, custom 3d traces): interpreter-level oracle "
                             "(reachable-graph walk, np.shares_memory, mutate-and-diff) and the per-operation overlap test of the forestattr stream",
-                            "the copied object's own reads under keyword overrides as a closed formula (last keyword wins, position= moves the copied children by the setter's rule): the model "
-                            "function copyKw is tied exactly by the forestattr stream; proved: overrides write to the copy (and, for position=, the paths of its clones) only",
-                            "orientation= / parent= / children= as copy keywords (= the corresponding setter applied to the copy: C09-C11 operations), rotate_from_* forms, setters raising part-way",
+                            "PROVED NOW (copy_kw_eq_assignments): copy(**kw) = plain copy + the assignments in keyword order, for every read of every object, any keywords "
+                            "(position / orientation incl. None and paths / arrays / scalars / style_label / style properties / parent= / children= / rejected values). SURPRISING but as coded "
+                            "(proved / witnessed on literals, compared on every run by the forestattr stream): (i) copy(parent=col) ADDS the copy to col — an override that edits another object; "
+                            "(ii) col.copy(children=col.children) MOVES the children away from the original (it is emptied) and the deep-copied children become garbage; a later position= / orientation= "
+                            "keyword in the same call then moves / rotates those OLD objects — 'overrides are applied to the copy only' does not hold for children= (copy_kw_frame states what is untouched: "
+                            "every tree that contains neither the original nor a named object); (iii) copy(parent=col, position=bad) raises and leaves the half-built, labelled copy as a child of col "
+                            "(halfbuilt_copy_reachable_after_parent_kw); without parent= / children= a raising copy leaves no trace (copy_raise_original_unchanged); (iv) a raising copy (e.g. children=[x, x]) "
+                            "may create the style object of an OLD object through repr() in the error message (no read changes)",
+                            "NOT MODELLED: children= on the copy of a NON-collection and misspelt keywords (copy(positon=...)): setattr creates a plain instance attribute, nothing raises — and a later "
+                            "position= then moves the objects of that ad-hoc `children` attribute (getattr(self, 'children', [])); a rejected STYLE keyword value (raises inside the final style.update, after "
+                            "all other keywords took effect; partial style update of a half-built copy); `style=` dict keyword; rotate_from_* forms",
                             "`_style_kwargs` dictionaries and `_children` lists as heap cells (represented by value / by the forest; link disjointness is copy_shares_no_node)"]
 
 
